@@ -1,4 +1,4 @@
-\* the same control restricted to source times at or behind the local clock: no violation (this is why the skew has to be an input)
+\* exhaustive, repaired flags, catalog size as an input: the MCq configuration x a block of 1500 filler records in every gap of the key order of either record prefix
 SPECIFICATION Spec
 CHECK_DEADLOCK FALSE
 INVARIANTS TypeOK ContractMilvus ContractKafka
@@ -6,19 +6,19 @@ CONSTANTS
   DBs <- TwoDBs
   CNames <- OneC
   PNames <- OneP
-  MaxInc = 1
+  MaxInc = 2
   MaxPInc = 1
   DbStates = {"live", "goneDown", "goneBoth"}
-  CStates = {"created", "dropping", "dropped", "tombstone"}
+  CStates = {"created", "dropped", "tombstone"}
   PStates = {"created", "dropped"}
   Concrete <- NamesPlain
   Now = 100
-  Skews = {"behind", "equal"}
-  FillGaps = "off"
-  FillN = 0
+  Skews = {"ahead"}
+  FillGaps = "all"
+  FillN = 1500
   Page = 1000
   ListTruncated = FALSE
-  ClampLocal = TRUE
+  ClampLocal = FALSE
   FixStaleDb = TRUE
   LiveDbGuard = TRUE
   SafeKeys = TRUE
